@@ -1097,7 +1097,33 @@ func c12Send(env *c06Env, rule string, send, getParams *core.FuncInfo, fSSRC, fR
 	teField := c.P.Field("", "RTPSender", "trackEncodings")
 	futSSRC := c.mustField(rule, "", "srtpWriterFuture", "ssrc")
 	// parameters.Encodings[idx].<path> -> (idx var, path)
-	fromParam := func(e ast.Expr) (idx *types.Var, path string, ok bool) {
+	// rootWritten: a field of local v (or v through its address) is written somewhere in Send
+	rootWritten := func(v *types.Var) bool {
+		hit := false
+		ast.Inspect(g.Body, func(x ast.Node) bool {
+			switch s := x.(type) {
+			case *ast.AssignStmt:
+				for _, l := range s.Lhs {
+					if _, isID := ast.Unparen(l).(*ast.Ident); isID {
+						continue // plain assignments are counted by c06AssignedAnywhere
+					}
+					if rv, _, ok := c06FieldPath(info, l); ok && rv == v {
+						hit = true
+					}
+				}
+			case *ast.IncDecStmt:
+				if rv, _, ok := c06FieldPath(info, s.X); ok && rv == v {
+					hit = true
+				}
+			}
+			return true
+		})
+		return hit
+	}
+	// fromParam resolves e, read at node `at`, to parameters.Encodings[idx].<path>. The encoding may be named by a
+	// local that is a copy of parameters.Encodings[idx]: a single definition, never reassigned, no field of it
+	// written, address not taken, and the index variable not reassigned either.
+	fromParam := func(at int, e ast.Expr) (idx *types.Var, path string, ok bool) {
 		// peel the field path down to the index expression
 		var parts []string
 		cur := ast.Unparen(e)
@@ -1112,15 +1138,29 @@ func c12Send(env *c06Env, rule string, send, getParams *core.FuncInfo, fSSRC, fR
 			parts = append([]string{se.Sel.Name}, parts...)
 			cur = ast.Unparen(se.X)
 		}
+		viaLocal := false
+		if id, isID := cur.(*ast.Ident); isID {
+			v := core.VarOf(info, id)
+			d, okd := c12SoleDef(g, at, v)
+			if !okd || d.Kind != "assign" || c06AssignedAnywhere(g, v) != 1 || c06WrittenInLiterals(g, v) || rootWritten(v) {
+				return nil, "", false
+			}
+			cur = ast.Unparen(d.Rhs)
+			viaLocal = true
+		}
 		ix, isIx := cur.(*ast.IndexExpr)
 		if !isIx || core.FieldOf(info, ix.X) != encField {
 			return nil, "", false
 		}
 		se, _ := ast.Unparen(ix.X).(*ast.SelectorExpr)
-		if se == nil || core.VarOf(info, se.X) != param || c06AssignedAnywhere(g, param) != 0 {
+		if se == nil || core.VarOf(info, se.X) != param || c06AssignedAnywhere(g, param) != 0 || rootWritten(param) {
 			return nil, "", false
 		}
-		return core.VarOf(info, ix.Index), strings.Join(parts, "."), true
+		iv := core.VarOf(info, ix.Index)
+		if viaLocal && (iv == nil || c06AssignedAnywhere(g, iv) != 1 || c06WrittenInLiterals(g, iv)) {
+			return nil, "", false // the copy must still denote Encodings[idx] where it is read
+		}
+		return iv, strings.Join(parts, "."), true
 	}
 	// the encoding a local denotes: trackEncoding := r.trackEncodings[idx]
 	encIndexOf := func(at int, e ast.Expr) *types.Var {
@@ -1155,7 +1195,7 @@ func c12Send(env *c06Env, rule string, send, getParams *core.FuncInfo, fSSRC, fR
 					stored[fv] = true
 					se := ast.Unparen(l).(*ast.SelectorExpr)
 					ei := encIndexOf(nd.ID, se.X)
-					idx, path, ok := fromParam(s.Rhs[i])
+					idx, path, ok := fromParam(nd.ID, s.Rhs[i])
 					r.Check(ok && path == wp && idx != nil && idx == ei, rule, "(*RTPSender).Send|store:trackEncoding."+fv.Name(), c.P.Pos(s.Pos()), "stores parameters.Encodings[idx]."+wp+" into the idx-th encoding",
 						"Send stores into trackEncoding."+fv.Name()+" something other than parameters.Encodings[idx]."+wp+" of the same encoding: the sender uses an SSRC that differs from the announced one")
 				}
@@ -1170,8 +1210,15 @@ func c12Send(env *c06Env, rule string, send, getParams *core.FuncInfo, fSSRC, fR
 					}
 					if id, ok := kv.Key.(*ast.Ident); ok && info.Uses[id] == types.Object(futSSRC) {
 						stored[futSSRC] = true
-						_, path, ok := fromParam(kv.Value)
-						r.Check(ok && path == "SSRC", rule, "(*RTPSender).Send|store:srtpWriterFuture.ssrc", c.P.Pos(kv.Pos()), "the SRTP stream is opened for parameters.Encodings[idx].SSRC",
+						idx, path, ok := fromParam(nd.ID, kv.Value)
+						// the index must be the position in the loop over r.trackEncodings
+						okIdx := false
+						if idx != nil {
+							if d, isSole := c12SoleDef(g, nd.ID, idx); isSole && d.Kind == "range-key" && core.FieldOf(info, d.Rhs) == teField {
+								okIdx = true
+							}
+						}
+						r.Check(ok && okIdx && path == "SSRC", rule, "(*RTPSender).Send|store:srtpWriterFuture.ssrc", c.P.Pos(kv.Pos()), "the SRTP stream is opened for parameters.Encodings[idx].SSRC",
 							"the SRTP writer is created with an SSRC other than parameters.Encodings[idx].SSRC")
 					}
 				}
